@@ -71,6 +71,23 @@ def cases(tier, seed):
         c.update({"cid": f"c18-{seed}-ds{k}", "lib": rng.choice(["ufoLib2", "defcon"]), "writers": "default", "ds": True,
                   "rule": [src, "x.alt"], "fn": rng.choice(["interp", "interp", "var-merge", "var-features"])})
         out.append(c)
+    # designspace paths where the default source is NOT listed first and the first-listed master declares other glyph
+    # categories (or none): GDEF classes, and everything the writers derive from them, mirror the DEFAULT source
+    rng3 = random.Random(seed * 236887691 + 180019)
+    made = 0
+    for _try in range(300):
+        if made >= (10 if tier == "quick" else 120):
+            break
+        c = layout_gen.gdefcurs_font(rng3)
+        cats = (c["ufo"].get("lib") or {}).get("public.openTypeCategories")
+        if not cats or c.get("userClasses"):
+            continue
+        names = c["ufo"]["glyphNames"]
+        other = None if made % 3 == 0 else {n_: ("mark" if cats.get(n_) == "base" else "base") for n_ in names if n_ in cats}
+        c.update({"cid": f"c18-{seed}-of{made}", "lib": rng3.choice(["ufoLib2", "defcon"]), "writers": "default",
+                  "via": ["vf", "vf", "vf", "interp"][made % 4], "otherFirst": True, "otherCats": other})
+        out.append(c)
+        made += 1
     # a glyph with cursive anchors that is reachable from a letter ONLY through a substitution whose input or context also
     # holds a direction-neutral glyph (contextual / ligature rules): it takes the letter's direction
     rng2 = random.Random(seed * 236887691 + 180018)
